@@ -71,6 +71,15 @@ Definition value_blind_with_shared_secret (v : cvalue) (vbf shared_secret : Z) (
   | _ => OFail BExpectedExplicitValue
   end.
 
+(* What the caller of Transaction::blind has to pass as `spent_utxo_secrets` (doc of new_not_last_confidential): for every
+   input the secrets of the spent output, followed by one entry (id, abf 0, amount, vbf 0) for each explicit issuance
+   amount / inflation-key amount of that input — the order in which verify_tx_amt_proofs builds its domain. *)
+Definition iss_secrets (i : txin) : list secrets :=
+  if has_issuance i then
+    (match is_amount (in_iss i) with VExp v => [mkSec (is_asset (in_iss i)) 0 v 0] | _ => [] end)
+    ++ (match is_keys (in_iss i) with VExp v => [mkSec (is_token (in_iss i)) 0 v 0] | _ => [] end)
+  else [].
+
 Section Keys.
   Variable pubk : Z -> Z.            (* PublicKey::from_secret_key *)
   Variable ecdh : Z -> Z -> Z.       (* Nonce::make_shared_secret(pk, sk) *)
